@@ -15,7 +15,7 @@ THEOREMS = ["ElfioVerif.C07.edit_refines", "ElfioVerif.C07.edits_refine", "Elfio
             "ElfioVerif.C07.nobits_never_data", "ElfioVerif.C07.fresh_inv", "ElfioVerif.C07.loaded_inv",
             "ElfioVerif.C07.lazy_inv"]
 SITES = ["sec32_insert", "sec64_insert", "sec32_set", "sec64_set"]
-RULE = ("operation sequences (set/app/ins and std::string overloads, chunks 0-300 bytes, positions 0..size+5, "
+RULE = ("operation sequences (set/app/ins and std::string overloads, appends whose source is a piece of the section's own buffer, chunks 0-300 bytes, positions 0..size+5, "
         "length<=12) on fresh sections of type PROGBITS/NOBITS/STRTAB and on sections loaded eagerly/lazily, "
         "x{ELF32,ELF64}x{LSB,MSB}; thorough adds all sequences of length<=4 over a 5-op alphabet. "
         "non-trivial = at least one operation changed the byte string; distinct by md5 of the case text")
@@ -57,8 +57,15 @@ def gen_cases(rng, tier):
         first, ty, d = setup_line(rng)
         lines = [first]; size = len(d)
         for _ in range(rng.randint(1, 12)):
-            op = rng.choice(["set", "sets", "app", "app", "apps", "ins", "ins", "ins", "inss", "setnull", "get"])
+            op = rng.choice(["set", "sets", "app", "app", "apps", "ins", "ins", "ins", "inss", "setnull", "get", "appself"])
             c = rand_chunk(rng)
+            if op == "appself":
+                # append a piece of the section's own data, passing a pointer into its buffer
+                if size == 0 or ty == SHT_NOBITS:
+                    continue
+                off = rng.randrange(size); m = rng.randint(1, size - off)
+                lines.append(f"appself {off} {m}"); size += m
+                continue
             if op in ("set", "sets"):
                 lines.append(f"{op} {hx(c)}"); size = len(c)
             elif op in ("app", "apps"):
@@ -110,6 +117,10 @@ def reference(case):
             cur = bytearray()
         elif op in ("app", "apps"):
             cur += bytes.fromhex(t[1]) if t[1] != "-" else b""
+        elif op == "appself":
+            off, m = int(t[1]), int(t[2])
+            if off + m <= len(cur):
+                cur += bytes(cur[off:off + m])
         elif op in ("ins", "inss"):
             pos = int(t[1]); c = bytes.fromhex(t[2]) if t[2] != "-" else b""
             if pos <= len(cur):
